@@ -108,6 +108,13 @@ def gen(ctx):
                                  ['advance', 0], ['advance', 0], ['enter'], ['start'] + PARAMS[1], ['advance', 1],
                                  ['shrink', 190000, 60000], ['read', 59999], ['advance', 1], ['grow', 3, 60003], ['advance', 1],
                                  ['advance', 1], ['advance', 1], ['advance', 1], ['exit']], probe=[]))
+    # a read-only handle is switched to 'r+' while a generator / a context keeps the array open, then the
+    # length changes and an element is written (the renewed map must be writable)
+    cases.append(dict(n=N, mode='r', acts=[['start'] + PARAMS[0], ['advance', 0], ['setmode', 'r+', N], ['grow', 3, N + 3],
+                                          ['write', N + 1, -4], ['read', N + 1], ['advance', 0], ['shrink', 2, N + 1], ['write', 7, -2],
+                                          ['advance', 0], ['advance', 0], ['advance', 0]], probe=[7]))
+    cases.append(dict(n=N, mode='r', acts=[['enter'], ['setmode', 'r+', N], ['grow', 1, N + 1], ['write', N, -6], ['read', N],
+                                          ['start'] + PARAMS[1], ['advance', 0], ['exit'], ['write', 3, -1], ['close', 0]], probe=[3, N]))
     # an array without elements: every generator raises at its first next(), every element access raises
     for _ in range(6 if ctx.quick else 60):
         acts, depth, ng = [], 0, 0
@@ -142,7 +149,7 @@ def act_term(a):
     if k == 'enterrw': return "AEnter"
     if k == 'read': return f"(ARead {cz(a[1])})"
     if k == 'write': return f"(AWrite {cz(a[1])} {cz(a[2])})"
-    if k in ('grow', 'shrink'): return f"(AResize {cz(a[2])})"
+    if k in ('grow', 'shrink', 'setmode'): return f"(AResize {cz(a[2])})"    # (a mode change renews the open map at the same length)
     if k == 'hide': return "AOpenFail"
     if k == 'readerr': return "AAccessErr"
     raise ValueError(a)
